@@ -103,7 +103,7 @@ D_FRAC_GENERAL = [{"seconds": 0.1}, {"minutes": -0.3}, {"seconds": 0.9999997}, {
                   {"seconds": 59.9999996}, {"minutes": 0.99999999}]
 D_NEAR = (_pm("seconds", [1, 59, 60, 61, 3599, 86399, 86400]) +
           _pm("minutes", [1, 59, 60, 1439, 1441]) +
-          _pm("hours", [1, 23, 24, 25]) +
+          _pm("hours", [1, 23, 24, 25, 49, 1000]) + _pm("seconds", [100000]) + _pm("minutes", [10000]) +
           _pm("days", [1, 27, 28, 29, 30, 31, 59, 60, 365, 366, 367, 730, 731, 1461]) +
           _pm("weeks", [1, 52, 53]) + D_MIXED + D_FRAC_DYADIC + D_FRAC_GENERAL + D_ZERO)
 D_CORE = (_pm("seconds", [1, 61, 86400]) + _pm("minutes", [1, 1441]) + _pm("hours", [1, 25]) +
